@@ -103,6 +103,7 @@ struct PmModel {
   unsigned next = 0;         // fresh id counter (never reused)
   bool final_ = true;
   bool barcode_read = false;
+  bool moved_from = false;   // lcm_replay: the real matrix was the source of a move
   static std::string& cfgname() { static std::string n; return n; }
   static const char* name() { return cfgname().c_str(); }
 
